@@ -148,7 +148,10 @@ def run_scaled(rng, tier, case):
                     built_h = None
         except Exception:
             built_h = None        # (only history; if the longer grid cannot be set up the case runs on fresh objects)
-    r = flow.run_portfolio(sp, built=built_h)
+    via_json = built_h is None and rng.random() < 0.2
+    if via_json:
+        case.feature('portfolio_from_its_json_form')          # (the scaled asset stored and loaded before use: it is still the asset that was described)
+    r = flow.run_portfolio(sp, built=built_h, via_json=via_json)
     who = {'base': sc['base']['type'], 'kind': kind, 'norm': sc['norm_scale'], 'fix_costs': sc['fix_costs'], 'used_before': built_h is not None}
     if not r.ok:
         if isinstance(r.error, AssertionError):
@@ -296,6 +299,13 @@ def run_structured(rng, tier, case):
     if not rf.ok:
         case.reject('flat: ' + flow.describe_error(rf)); return
     s1 = Snap(rs.op); s2 = Snap(rf.op)
+    # the cost vector alone (costs_only: price samples, robust, SLP) of the structured portfolio is the cost vector of its problem
+    try:
+        with env.quiet(), attach.paused():
+            c_only = np.asarray(rs.built.portfolio.setup_optim_problem(rs.built.prices, rs.built.timegrid, costs_only=True), float)
+        case.check('structured.cost_vector_equals_problem_costs', c_only.shape == s1.c.shape and bool(np.allclose(c_only, s1.c, rtol=1e-12, atol=0.)), n_cost_vector=len(c_only), n_problem=len(s1.c))
+    except Exception as e:
+        case.check('structured.cost_vector_equals_problem_costs', False, error='%s: %s' % (type(e).__name__, str(e)[:160]))
     same = len(s1.c) == len(s2.c) and np.array_equal(s1.c, s2.c) and np.array_equal(s1.l, s2.l) and np.array_equal(s1.u, s2.u)
     case.check('structured.same_variables_as_flat', bool(same), n_struct=len(s1.c), n_flat=len(s2.c))
     if not (rs.solved and rf.solved):
